@@ -264,11 +264,6 @@ type c16Schema struct {
 
 func (s *c16Schema) id() int { s.next++; return s.next }
 
-func (s *c16Schema) operand(r *gen.Rng, name string, t c16Type, pool []interface{}) string {
-	s.pools[name] = &c16Pool{t: t, vals: pool}
-	return fmt.Sprintf("leaf %s { %s }", name, t.stmt())
-}
-
 func (s *c16Schema) newExpr(r *gen.Rng, path []string, leaf string, t c16Type) c16Expr {
 	lit, pool := t.genLit(r)
 	if p, ok := s.pools[leaf]; ok {
@@ -1051,18 +1046,18 @@ func C16(ctx *core.Ctx) error {
 	ctx.Imports = "Val.Model Tree.Schema Tree.Editor Tree.XPathLex Tree.When Tree.WhenSpec Check.C16Check"
 	ctx.Rule = "parse: name(/name)* op literal texts over 12 operand types (bare / quoted / fractional / negative / out-of-range / ill-typed literals, whitespace variants), 40% damaged byte-wise, some beyond the 256-path stack; eval: XPredicate at the root for every operand type x every operator x operand at / next to the literal / at the type's bounds / unset, through 0-3 containers and through lists; export: hand-built modules of 1-5 blocks placing 'when' on leaves, containers, lists, inside containers and list entries, on uses and augment (+ defaults on conditional and operand leaves), 3 data trees each; where: ?where= on top-level and nested lists with paths into containers and inner lists; filter: 6 events per subscription; edit: UpsertFrom on targets that do / do not satisfy the conditions. distinct = SHA-256 of the case term; non-trivial = well-formed text / any tree case with data"
 	r := gen.New(ctx.Seed)
-	c16ParseCases(ctx, r.Fork(1), ctx.Scale(110, 2500))
+	c16ParseCases(ctx, r.Fork(1), ctx.Scale(90, 2500))
 	if err := c16MatrixCases(ctx, r.Fork(2), ctx.Scale(2, 40)); err != nil {
 		return err
 	}
-	if err := c16TreeCases(ctx, r.Fork(3), ctx.Scale(30, 700)); err != nil {
+	if err := c16TreeCases(ctx, r.Fork(3), ctx.Scale(26, 700)); err != nil {
 		return err
 	}
-	if err := c16WhereCases(ctx, r.Fork(4), ctx.Scale(20, 500)); err != nil {
+	if err := c16WhereCases(ctx, r.Fork(4), ctx.Scale(16, 500)); err != nil {
 		return err
 	}
-	if err := c16FilterCases(ctx, r.Fork(5), ctx.Scale(10, 250)); err != nil {
+	if err := c16FilterCases(ctx, r.Fork(5), ctx.Scale(8, 250)); err != nil {
 		return err
 	}
-	return c16EditCases(ctx, r.Fork(6), ctx.Scale(20, 500))
+	return c16EditCases(ctx, r.Fork(6), ctx.Scale(16, 500))
 }
